@@ -261,6 +261,19 @@ Proof.
   - destruct H as (_ & _ & PL). unfold plen in PL. lia.
 Qed.
 
+(** Unless the generation is 2 (between the second and the third wait), no live
+    thread is between its two timestamps. *)
+Lemma live_not_timed : forall n sh g th,
+  thread_ok n sh g th -> panicked th = false -> g <> 2 -> ~ (n + 3 < pc th <= 2 * n + 4).
+Proof.
+  intros n sh g th H P G2 [A B]. unfold thread_ok, panicked in *.
+  destruct (md th) eqn:M; try discriminate; destruct (blk th) eqn:Bk; try contradiction.
+  - destruct H as (W & _). apply iswait_cases in W. lia.
+  - destruct H as (_ & ->). assert (2 <= wb n (pc th)) by (apply wb_ge2; lia).
+    assert (~ 3 <= wb n (pc th)) by (rewrite wb_ge3; lia). lia.
+  - destruct H as (_ & _ & PL). unfold plen in PL. lia.
+Qed.
+
 (** Prop-level statement of C08's order of phases.  Positions of round r
     (sample size n): generator calls 0..n-1, clear n+1, start timestamp n+3,
     end timestamp 2n+4, last wait 2n+5, snapshot 2n+6, drops from 2n+7. *)
